@@ -128,16 +128,6 @@ func runC19(c *core.Ctx) {
 		c.Undecided("R19.0", "config-types", 0, fmt.Sprintf("only %d configuration struct types found: %v", len(seeds), seedNames))
 		return
 	}
-	isSeedT := func(t types.Type) bool {
-		n, ok := t.(*types.Named)
-		if !ok {
-			if a, ok2 := t.(*types.Alias); ok2 {
-				n, ok = types.Unalias(a).(*types.Named)
-			}
-		}
-		return ok && seeds[n]
-	}
-
 	// With… methods: methods of the config interfaces that return the interface
 	withMethods := map[string]bool{} // full name of concrete method
 	for n := range seeds {
@@ -150,95 +140,11 @@ func runC19(c *core.Ctx) {
 		}
 	}
 
-	al := core.NewAlias(c)
-	al.OwnedType = func(n *types.Named) bool { return seeds[n] }
-	seedRoots := map[core.Root]string{}
-	for n := range seeds {
-		st := n.Underlying().(*types.Struct)
-		for i := 0; i < st.NumFields(); i++ {
-			ft := st.Field(i).Type().Underlying()
-			switch u := ft.(type) {
-			case *types.Slice:
-				r := core.FieldRoot(n, i)
-				seedRoots[r] = "configuration field " + n.Obj().Name() + "." + st.Field(i).Name()
-				if isRefContainer(u.Elem()) {
-					seedRoots[core.Elem(r)] = "elements of configuration field " + n.Obj().Name() + "." + st.Field(i).Name()
-				}
-			case *types.Map:
-				r := core.FieldRoot(n, i)
-				seedRoots[r] = "configuration field " + n.Obj().Name() + "." + st.Field(i).Name()
-				if isRefContainer(u.Elem()) {
-					seedRoots[core.Elem(r)] = "elements of configuration field " + n.Obj().Name() + "." + st.Field(i).Name()
-				}
-			case *types.Pointer:
-				if isSeedT(u.Elem()) {
-					continue // owned by type
-				}
-				seedRoots[core.FieldRoot(n, i)] = "configuration field " + n.Obj().Name() + "." + st.Field(i).Name()
-			}
-		}
-	}
-	al.Propagate(seedRoots)
+	agg, keys, owned, al := ownedWriteAnalysis(c, seeds)
 	c.Count("functions_analysed", len(al.Fns))
 	c.Count("write_sites_enumerated", len(al.Writes))
 	c.Count("tainted_roots", len(al.Tainted))
-
-	fresh := core.NewFresh(isSeedT)
-
-	type fnAgg struct {
-		fn    *ssa.Function
-		sites int
-		bad   []string
-		pos   []core.WriteSite
-	}
-	agg := map[string]*fnAgg{}
-	var keys []string
-	owned := 0
-	for _, w := range al.Writes {
-		root, ok := al.MayAliasOwned(w.Base)
-		if !ok {
-			continue
-		}
-		// a store to a local variable cell is not a write through a reference
-		if w.Kind == "ptr-store" {
-			if a, isAlloc := w.Base.(*ssa.Alloc); isAlloc && !strings.HasPrefix(string(root), "type:") {
-				_ = a
-				continue
-			}
-		}
-		owned++
-		name := core.SSAFuncName(w.Fn)
-		g := agg[name]
-		if g == nil {
-			g = &fnAgg{fn: w.Fn}
-			agg[name] = g
-			keys = append(keys, name)
-		}
-		g.sites++
-		fr := fresh.Analyze(w.Fn)
-		ok2 := false
-		switch w.Kind {
-		case "field-store", "ptr-store":
-			// writing a field of / through a pointer to an owned object: the object must be fresh & unpublished
-			ok2 = fr.TrackedAt(w.Base, w.Instr) || (!strings.HasPrefix(string(root), "type:") && fr.IsFreshAt(w.Base, w.Instr))
-		default:
-			ok2 = fr.IsFreshAt(w.Base, w.Instr)
-		}
-		if !ok2 {
-			what := w.Kind
-			if w.Field != nil {
-				what += " ." + w.Field.Name()
-			}
-			why := string(root)
-			if !strings.HasPrefix(why, "type:") {
-				why = al.Why(root)
-			}
-			g.bad = append(g.bad, fmt.Sprintf("%s at %s writes memory that is not fresh in this activation (may alias %s)", what, c.Pos(w.Pos), why))
-			g.pos = append(g.pos, w)
-		}
-	}
 	c.Count("owned_write_sites", owned)
-	sort.Strings(keys)
 	for _, k := range keys {
 		g := agg[k]
 		rule := "R19.2"
@@ -347,4 +253,98 @@ func reflectOnSeeds(c *core.Ctx, path string, seeds map[*types.Named]bool) strin
 		}
 	}
 	return strings.Join(out, "; ")
+}
+
+type fnAgg struct {
+	fn    *ssa.Function
+	sites int
+	bad   []string
+	pos   []core.WriteSite
+}
+
+// ownedWriteAnalysis enumerates every write-through instruction of the module that may touch memory owned by
+// the seed struct types and decides, per function, whether each one writes fresh unpublished memory.
+func ownedWriteAnalysis(c *core.Ctx, seeds map[*types.Named]bool) (agg map[string]*fnAgg, keys []string, owned int, al *core.Alias) {
+	isSeedT := func(t types.Type) bool {
+		n, ok := types.Unalias(t).(*types.Named)
+		return ok && seeds[n]
+	}
+	al = core.NewAlias(c)
+	al.OwnedType = func(n *types.Named) bool { return seeds[n] }
+	seedRoots := map[core.Root]string{}
+	for n := range seeds {
+		st := n.Underlying().(*types.Struct)
+		for i := 0; i < st.NumFields(); i++ {
+			ft := st.Field(i).Type().Underlying()
+			switch u := ft.(type) {
+			case *types.Slice:
+				r := core.FieldRoot(n, i)
+				seedRoots[r] = "configuration field " + n.Obj().Name() + "." + st.Field(i).Name()
+				if isRefContainer(u.Elem()) {
+					seedRoots[core.Elem(r)] = "elements of configuration field " + n.Obj().Name() + "." + st.Field(i).Name()
+				}
+			case *types.Map:
+				r := core.FieldRoot(n, i)
+				seedRoots[r] = "configuration field " + n.Obj().Name() + "." + st.Field(i).Name()
+				if isRefContainer(u.Elem()) {
+					seedRoots[core.Elem(r)] = "elements of configuration field " + n.Obj().Name() + "." + st.Field(i).Name()
+				}
+			case *types.Pointer:
+				if isSeedT(u.Elem()) {
+					continue // owned by type
+				}
+				seedRoots[core.FieldRoot(n, i)] = "configuration field " + n.Obj().Name() + "." + st.Field(i).Name()
+			}
+		}
+	}
+	al.Propagate(seedRoots)
+
+	fresh := core.NewFresh(isSeedT)
+
+	agg = map[string]*fnAgg{}
+	for _, w := range al.Writes {
+		root, ok := al.MayAliasOwned(w.Base)
+		if !ok {
+			continue
+		}
+		// a store to a local variable cell is not a write through a reference
+		if w.Kind == "ptr-store" {
+			if a, isAlloc := w.Base.(*ssa.Alloc); isAlloc && !strings.HasPrefix(string(root), "type:") {
+				_ = a
+				continue
+			}
+		}
+		owned++
+		name := core.SSAFuncName(w.Fn)
+		g := agg[name]
+		if g == nil {
+			g = &fnAgg{fn: w.Fn}
+			agg[name] = g
+			keys = append(keys, name)
+		}
+		g.sites++
+		fr := fresh.Analyze(w.Fn)
+		ok2 := false
+		switch w.Kind {
+		case "field-store", "ptr-store":
+			// writing a field of / through a pointer to an owned object: the object must be fresh & unpublished
+			ok2 = fr.TrackedAt(w.Base, w.Instr) || (!strings.HasPrefix(string(root), "type:") && fr.IsFreshAt(w.Base, w.Instr))
+		default:
+			ok2 = fr.IsFreshAt(w.Base, w.Instr)
+		}
+		if !ok2 {
+			what := w.Kind
+			if w.Field != nil {
+				what += " ." + w.Field.Name()
+			}
+			why := string(root)
+			if !strings.HasPrefix(why, "type:") {
+				why = al.Why(root)
+			}
+			g.bad = append(g.bad, fmt.Sprintf("%s at %s writes memory that is not fresh in this activation (may alias %s)", what, c.Pos(w.Pos), why))
+			g.pos = append(g.pos, w)
+		}
+	}
+	sort.Strings(keys)
+	return
 }
